@@ -213,7 +213,8 @@ Req(d, S, status) ==
       ignored == \/ status = "paused" /\ S.wf = "pausing" /\ S2.wf = "pausing"
                  \/ status = "canceled" /\ S.wf = "canceling" /\ S2.wf = "canceling"
   IN IF ~ignored /\ status # S.wf /\ S.wf = S2.wf
-     THEN [S |-> S2, ret |-> "InvalidWorkflowStatusTransition"]
+     THEN \* (as repaired) a rejected request leaves the task statuses as they were
+          [S |-> [S2 EXCEPT !.seq = S.seq], ret |-> "InvalidWorkflowStatusTransition"]
      ELSE [S |-> S2, ret |-> "ok"]
 
 (* ------------------------------------------------------------------------------------------ *)
